@@ -1,13 +1,17 @@
 #!/bin/bash
-# tools/seedtest.sh <property id> <patch file> [tier]   — applies a seeded change to /repo, runs the check, reverts
-id=$1; patch=$(readlink -f $2); tier=${3:-quick}
-cd /repo || exit 9
-[ -z "$(git status --porcelain -- src)" ] || { echo "repo/src dirty"; exit 9; }
+# tools/seedtest.sh <property id> <patch file> [tier] [extra vcheck args...]
+# runs the check against a scratch worktree of /repo HEAD with the seeded change applied (VERIF_REPO_SRC, development
+# override) so that /repo itself is never dirty while other runs use it.  Equivalent to: git -C /repo apply <patch>;
+# ./vcheck <id>; git -C /repo checkout -- .
+id=$1; patch=$(readlink -f $2); tier=${3:-quick}; shift; shift; shift
+name=$(basename $(dirname $patch))
+wt=/tmp/seedrun/$name; mkdir -p /tmp/seedrun; rm -rf $wt; git -C /repo worktree prune
+git -C /repo worktree add --detach $wt HEAD >/dev/null 2>&1 || { echo "worktree failed"; exit 9; }
+cd $wt
 if ! git apply "$patch" 2>/dev/null; then
-  patch -p1 -F3 -s < "$patch" || { echo "patch does not apply"; git checkout -- .; git clean -fdq src; exit 9; }
-  find . -name '*.orig' -delete
+  patch -p1 -F3 -s < "$patch" || { echo "patch does not apply"; cd /; git -C /repo worktree remove --force $wt; exit 9; }
 fi
-cd /verif && ./vcheck $id --tier $tier > /tmp/seedtest_$id.log 2>&1; rc=$?
-grep -E "^(VIOLATION|KNOWN|HARNESS|property=)" /tmp/seedtest_$id.log | cut -c1-300 | head -12
-cd /repo && git checkout -- . && git status --porcelain -- src
-echo "seedtest $id $(basename $patch): exit=$rc"
+cd /verif && VERIF_REPO_SRC=$wt/src timeout ${SEED_TIMEOUT:-1500} ./vcheck $id --tier $tier "$@" > /tmp/seedtest_$name.log 2>&1; rc=$?
+grep -E "^(VIOLATION|KNOWN|HARNESS|property=)" /tmp/seedtest_$name.log | cut -c1-300 | head -8
+git -C /repo worktree remove --force $wt
+echo "seedtest $id $name: exit=$rc violations=$(grep -c '^VIOLATION' /tmp/seedtest_$name.log) harness_errors=$(grep -c '^HARNESS' /tmp/seedtest_$name.log)"
